@@ -356,6 +356,92 @@ theorem C10_legacy_neighbors_mem (c : LCfg) (ops : List LOp) (p : P2) (r : Int) 
   · rintro ⟨h1, q, hq, h2, h3⟩
     exact ⟨h1, by simp only [hq]; simpa using ⟨h2, h3⟩⟩
 
+/-- Legacy, `include_center = False`, every history, query point inside the space: the agents returned are exactly
+    those within the radius whose position is *not* the query point — every agent sitting exactly on the point is
+    left out, however many coincide there (and nobody else: distance 0 means same point). -/
+theorem C10_legacy_exclude_center (c : LCfg) (hw : c.WF) (ops : List LOp) (p : P2) (hp : oob c p = false)
+    (r : Int) (a : Aid) :
+    a ∈ nbrSpec c (lspec c ops).1 (lspec c ops).2 p r false ↔
+      a ∈ (lrun c ops).agents ∧ ∃ q, (lrun c ops).pos a = some q ∧ q ≠ p ∧ ldist2 c q p ≤ r * r := by
+  rw [C10_legacy_neighbors_mem]
+  constructor
+  · rintro ⟨h1, q, hq, h2, h3⟩
+    refine ⟨h1, q, hq, ?_, h2⟩
+    rintro rfl
+    obtain ⟨q', hq', hin⟩ := C10_legacy_positions_inside c hw ops a h1
+    rw [hq] at hq'; cases hq'
+    have := (ldist2_eq_zero_iff c hw q q hin hin).mpr rfl
+    rcases h3 with h3 | h3
+    · cases h3
+    · omega
+  · rintro ⟨h1, q, hq, hne, h2⟩
+    refine ⟨h1, q, hq, h2, Or.inr ?_⟩
+    obtain ⟨q', hq', hin⟩ := C10_legacy_positions_inside c hw ops a h1
+    rw [hq] at hq'; cases hq'
+    have hnn : 0 ≤ ldist2 c q p := by
+      unfold ldist2
+      have := sq_nonneg (axisDist c.torus c.width q.1 p.1)
+      have := sq_nonneg (axisDist c.torus c.height q.2 p.2)
+      omega
+    have hz : ldist2 c q p ≠ 0 := fun h0 => hne ((ldist2_eq_zero_iff c hw q p hin hp).mp h0)
+    omega
+
+/-- Legacy: two points of the space are at distance 0 iff they are the same point (bounded or torus: the upper
+    edge is not part of the space, so no point has a second image inside it). -/
+theorem C10_legacy_zero_distance_iff_same_point (c : LCfg) (hw : c.WF) (p q : P2)
+    (hp : oob c p = false) (hq : oob c q = false) : ldist2 c p q = 0 ↔ p = q :=
+  ldist2_eq_zero_iff c hw p q hp hq
+
+/-- Legacy: the radius only enters squared — a negative radius selects the same agents as its absolute value.
+    (The experimental space differs: `C10_exp_negative_radius`.) -/
+theorem C10_legacy_negative_radius (c : LCfg) (ops : List LOp) (p : P2) (r : Int) (incl : Bool) :
+    (getNeighbors (lrun c ops) p (-r) incl).2 = (getNeighbors (lrun c ops) p r incl).2 := by
+  rw [(C10_legacy_neighbors_exact c ops p (-r) incl).1, (C10_legacy_neighbors_exact c ops p r incl).1]
+  unfold nbrSpec; rw [Int.neg_mul_neg]
+
+/-- Legacy `move_agent` of an agent that is *not in the space* (never placed, or removed), every history: a point
+    the assignment rule rejects is rejected as usual; otherwise the space itself is not touched at all — members,
+    index maps, cache, every member's position, hence every query answer — only the foreign agent object's own
+    `pos` attribute is written, and the call raises `KeyError` exactly when the position cache happens to exist
+    (after a `get_neighbors` with no placement / removal since), else returns normally.  The agent does not
+    become a member either way.  (Not one of the rejections C18 lists; the write to the outsider's attribute is
+    the only effect and is the same whether or not the call raises.) -/
+theorem C10_legacy_move_foreign_agent (c : LCfg) (ops : List LOp) (a : Aid) (p : P2) :
+    let s := lrun c ops
+    a ∉ s.agents →
+    (∀ e, torusAdj c p = .error e → move s a p = (s, .error e)) ∧
+    (∀ p', torusAdj c p = .ok p' →
+      move s a p = ({ s with pos := upd s.pos a (some p') }, if s.pts.isSome then .error .key else .ok ()) ∧
+      (lrun c (ops ++ [.move a p])).agents = s.agents ∧
+      (∀ b, b ≠ a → (lrun c (ops ++ [.move a p])).pos b = s.pos b) ∧
+      ∀ q r incl, (getNeighbors (lrun c (ops ++ [.move a p])) q r incl).2 = (getNeighbors s q r incl).2) := by
+  dsimp only
+  intro ha
+  have h := lrun_refines c ops
+  obtain ⟨h1, h2⟩ := move_foreign h.inv a p ha
+  refine ⟨fun e he => h1 e (by rw [h.cfg]; exact he), fun p' hp => ?_⟩
+  have hm := h2 p' (by rw [h.cfg]; exact hp)
+  have hstep : lrun c (ops ++ [LOp.move a p]) = lstep (lrun c ops) (LOp.move a p) := by
+    simp only [lrun, List.foldl_append, List.foldl_cons, List.foldl_nil]
+  have hrun : lrun c (ops ++ [LOp.move a p]) = { lrun c ops with pos := upd (lrun c ops).pos a (some p') } := by
+    rw [hstep]
+    show (move (lrun c ops) a p).1 = _
+    rw [hm]
+  refine ⟨hm, by rw [hrun]; rfl, fun b hb => by rw [hrun]; simp [upd, hb], fun q r incl => ?_⟩
+  rw [(C10_legacy_neighbors_exact c (ops ++ [LOp.move a p]) q r incl).1, (C10_legacy_neighbors_exact c ops q r incl).1]
+  have hk : (lspec c (ops ++ [LOp.move a p])).1 = (lspec c ops).1 := by
+    rw [← (C10_legacy_positions_all_histories c _).1, ← (C10_legacy_positions_all_histories c ops).1, hrun]; rfl
+  have hpo : (lspec c (ops ++ [LOp.move a p])).2 = upd (lspec c ops).2 a (some p') := by
+    rw [← (C10_legacy_positions_all_histories c _).2, ← (C10_legacy_positions_all_histories c ops).2, hrun]
+  rw [hk, hpo]
+  unfold nbrSpec
+  congr 1
+  apply List.filter_congr
+  intro b hb
+  have hba : b ≠ a := by
+    rintro rfl; exact ha (by rw [(C10_legacy_positions_all_histories c ops).1]; exact hb)
+  simp [upd, hba]
+
 /-- Experimental, every history: `get_agents_in_radius(pt, r)` returns exactly the pairs (agent, squared
     distance) of the agents in the space whose distance from `pt` to their true position is at most `r`,
     each agent once. -/
@@ -515,6 +601,74 @@ theorem C10_exp_nearest_neighbors (argpart : List Int → Nat → List Nat) (hap
     obtain ⟨be, hbe, e⟩ := List.mem_map.mp hm
     exact hout (List.mem_map.mpr ⟨be, (hmemf be).mpr ⟨hbe, by rw [e]; exact hba⟩, e⟩)
 
+/-- Experimental `agent.get_nearest_neighbors(k)` with *no assumption about coincident agents*, every history, every
+    admissible `argpartition`, `k + 1 ≤ n`: the answer consists of pairwise distinct *other* agents with their
+    correct distances, none farther than an other agent left out — and it has `k` entries, except in one case:
+    when the agent itself was not among the `k + 1` nearest that numpy picked (possible only if at least `k + 1`
+    other agents sit exactly on the agent's position) the answer has `k + 1` entries, all at distance 0. -/
+theorem C10_exp_nearest_neighbors_ties (argpart : List Int → Nat → List Nat) (hap : ArgPartSpec argpart)
+    (c : ECfg) (hw : c.WF) (cap : Nat) (ops : List EOp) (a : Aid) (p : Pos) (k : Nat) :
+    let s := erun c cap ops
+    a ∈ s.active → getPos s a = .ok p → k + 1 ≤ s.active.length →
+    ∃ res, nearestNeighbors argpart s a k = .ok res ∧ (res.map (·.1)).Nodup ∧ a ∉ res.map (·.1) ∧
+      (∀ ad ∈ res, ad.1 ∈ s.active ∧ ∃ q, getPos s ad.1 = .ok q ∧ ad.2 = edist2 c p q) ∧
+      (∀ ad ∈ res, ∀ b ∈ s.active, b ≠ a → b ∉ res.map (·.1) →
+        ∀ q, getPos s b = .ok q → ad.2 ≤ edist2 c p q) ∧
+      (res.length = k ∨ (res.length = k + 1 ∧ ∀ ad ∈ res, ad.2 = 0)) := by
+  dsimp only
+  intro ha hp hk
+  obtain ⟨full, h1, h2, h3, h4, h5⟩ := C10_exp_k_nearest argpart hap c cap ops p (k + 1) (by omega) hk
+  have h0 : edist2 c p p = 0 := dist2Aux_self _ _ _ (fun d hd => by have := hw d hd; omega)
+  have hmemf : ∀ ad, ad ∈ full.filter (fun ad => ad.1 ≠ a) ↔ ad ∈ full ∧ ad.1 ≠ a := by
+    intro ad; rw [List.mem_filter]; simp
+  refine ⟨full.filter (fun ad => ad.1 ≠ a), by simp only [nearestNeighbors, hp, h1], ?_, ?_, ?_, ?_, ?_⟩
+  · exact h3.sublist ((List.filter_sublist).map _)
+  · intro hm
+    obtain ⟨ad, had, e⟩ := List.mem_map.mp hm
+    exact ((hmemf ad).mp had).2 e
+  · intro ad had; exact h4 ad ((hmemf ad).mp had).1
+  · intro ad had b hb hba hout q hq
+    apply h5 ad ((hmemf ad).mp had).1 b hb _ q hq
+    intro hm
+    obtain ⟨be, hbe, e⟩ := List.mem_map.mp hm
+    exact hout (List.mem_map.mpr ⟨be, (hmemf be).mpr ⟨hbe, by rw [e]; exact hba⟩, e⟩)
+  · by_cases hain : a ∈ full.map (·.1)
+    · left
+      have := length_filter_ne_of_nodup full a h3 hain; omega
+    · right
+      have hall : full.filter (fun ad => ad.1 ≠ a) = full := by
+        rw [List.filter_eq_self]
+        intro ad had
+        have : ad.1 ≠ a := by rintro e; exact hain (List.mem_map.mpr ⟨ad, had, e⟩)
+        simpa using this
+      rw [hall]
+      refine ⟨h2, fun ad had => ?_⟩
+      have hle := h5 ad had a ha hain p hp
+      obtain ⟨_, q, _, hd⟩ := h4 ad had
+      have hnn : 0 ≤ ad.2 := by rw [hd]; exact dist2Aux_nonneg _ _ _ _
+      rw [h0] at hle; omega
+
+/-- Experimental, negative radius, every history: `get_agents_in_radius` returns nothing (no distance is below a
+    negative number), and `agent.get_neighbors_in_radius` raises `IndexError` (its mask over the empty answer is a
+    float array) — the only way the latter can raise for an agent of the space (`C10_exp_neighbors_in_radius`). -/
+theorem C10_exp_negative_radius (c : ECfg) (cap : Nat) (ops : List EOp) (pt : Pos) (a : Aid) (r : Int) (hr : r < 0) :
+    let s := erun c cap ops
+    agentsInRadius s pt r = [] ∧ (a ∈ s.active → agentNir s a r = .error .index) := by
+  intro s
+  have hnil : ∀ pt, agentsInRadius s pt r = [] := by
+    intro pt
+    unfold agentsInRadius
+    rw [List.filter_eq_nil_iff]
+    intro ad _
+    have : ¬ (0 ≤ r) := by omega
+    simp [this]
+  refine ⟨hnil pt, fun ha => ?_⟩
+  have h := erun_refines c cap ops
+  obtain ⟨i, hi⟩ := (h.inv.mem_iff a).mp ha
+  have hg : getPos s a = .ok (s.buf i) := getPos_of_idx h.inv hi
+  have hng : s.gone a = false := h.inv.not_gone hi
+  simp [agentNir, hng, neighborsInRadius, hg, hnil]
+
 /-- `k = 0` returns nothing; `k` larger than the number of agents is rejected (`ValueError`). -/
 theorem C10_exp_k_nearest_range (argpart : List Int → Nat → List Nat) (c : ECfg) (cap : Nat)
     (ops : List EOp) (pt : Pos) (k : Nat) :
@@ -545,6 +699,41 @@ theorem C10_torus_axis_is_nearest_image (s a b : Int) (hs : 0 < s) (hd : iabs (a
 
 /-- without a torus the per-axis separation is `|a - b|`: the distance is Euclidean -/
 theorem C10_flat_axis_is_abs (s a b : Int) : axisDist false s a b = iabs (a - b) := axisDist_flat s a b
+
+/-- Heading / difference vector along one axis of a torus of circumference `s` (legacy `get_heading` and
+    experimental `calculate_difference_vector` compute every component this way), for coordinates at most `s` apart:
+    it is the direct difference `b - a` while that is shorter than half the circumference and the image through the
+    edge `b - a ∓ s` when it is longer.  On the tie — `b` exactly half-way round, `|b - a| = s/2`, both images
+    equally long — the code takes the image through the edge, which is `a - b`: the heading then points *away* from
+    `b`'s direct position (`heading = -(b - a)`), and swapping the two points flips it. -/
+theorem C10_torus_heading_cases (s a b : Int) (hd : iabs (b - a) ≤ s) :
+    (2 * iabs (b - a) < s → axisHeading true s a b = b - a) ∧
+    (2 * iabs (b - a) = s → axisHeading true s a b = a - b ∧ axisHeading true s b a = b - a) ∧
+    (s < 2 * iabs (b - a) → axisHeading true s a b = b - a - sgn (b - a) * s) := by
+  have h1 := axisHeading_torus_cases s a b hd
+  have h2 := axisHeading_torus_cases s b a (by rw [iabs_sub_comm]; exact hd)
+  refine ⟨h1.1, fun h => ⟨h1.2.1 h, h2.2.1 (by rw [iabs_sub_comm]; exact h)⟩, h1.2.2⟩
+
+/-- … in every case (tie included) following the heading from `a` arrives at `b` or at one of its two neighbouring
+    periodic images, and no periodic image of `b` is nearer than the heading is long. -/
+theorem C10_torus_heading_reaches_target (s a b : Int) (hs : 0 < s) (hd : iabs (a - b) ≤ s) :
+    (a + axisHeading true s a b = b ∨ a + axisHeading true s a b = b + s ∨ a + axisHeading true s a b = b - s) ∧
+    ∀ k : Int, iabs (axisHeading true s a b) ≤ iabs (a - b + k * s) := by
+  refine ⟨axisHeading_reaches s a b, fun k => ?_⟩
+  have h1 := axisDist_torus_le_image s a b hs hd k
+  have h0 : 0 ≤ axisDist true s a b := by
+    simp only [axisDist, if_true]; unfold iabs at *; split <;> omega
+  rcases axisHeading_eq_or_neg true s a b (by omega) with h | h <;> rw [h] <;> unfold iabs at * <;> split <;> omega
+
+/-- without a torus the heading is the plain difference -/
+theorem C10_flat_heading_is_difference (s a b : Int) : axisHeading false s a b = b - a := axisHeading_flat s a b
+
+/-- The per-axis separation is 0 for equal coordinates and, on a torus, for the two edges (`|a - b| = s`), nothing else.
+    The experimental space keeps the upper edge inside its bounds, so on an experimental torus the points `min` and
+    `max` of an axis are distinct stored positions at distance 0 (example below); the legacy space excludes the upper
+    edge (`C10_legacy_zero_distance_iff_same_point`). -/
+theorem C10_axis_zero_distance_iff (t : Bool) (s a b : Int) (hs : 0 < s) :
+    axisDist t s a b = 0 ↔ a = b ∨ (t = true ∧ iabs (a - b) = s) := axisDist_eq_zero_iff t s a b hs
 
 /-- Legacy `get_distance` is symmetric. -/
 theorem C10_legacy_distance_symmetric (c : LCfg) (p q : P2) : ldist2 c p q = ldist2 c q p := by
@@ -624,6 +813,21 @@ example : getPos (erun exE5 0 [.new 1, .set 1 [1, 2, -3, 4, 15], .new 2, .set 2 
 example : setPos (erun exE5 0 [.new 1, .set 1 [1, 2, -3, 4, 15], .new 2]) 2 [0, 0, 0, 0, 21] = .error .oob := by rfl
 example : calcD2 (erun exE5 0 [.new 1, .set 1 [1, 2, -3, 4, 15], .new 2, .set 2 [0, 0, 0, 0, 20]]) [0, 0, 0, 0, 10] = [55, 100] := by
   decide
+
+/-! edge cases: the half-size tie of the heading, the two edges of an experimental torus, a foreign `move_agent` -/
+example : lheading exL (0, 0) (320, 100) = (-320, 100) := by decide          -- tie on x: through the edge
+example : lheading exL (320 - 1, 0) (-1, 0) = (320, 0) := by decide           -- … and the reverse direction
+example : ldist2 exL (0, 0) (320, 0) = 320 * 320 := by decide
+example : edist2 exE1 [-64] [64] = 0 := by decide
+example : inBounds exE1.dims [-64] = true ∧ inBounds exE1.dims [64] = true := by decide
+example : (move (lrun exL (exOps.take 3)) 9 (5, 5)).2 = .error .key := by rfl
+example : (move (lrun exL (exOps.take 3)) 9 (5, 5)).1.pos 9 = some (5, 5) ∧
+    (move (lrun exL (exOps.take 3)) 9 (5, 5)).1.agents = [1, 2] := by decide
+example : (move (lrun exL (exOps.take 2)) 9 (5, 5)).2 = .ok () := by rfl
+/-- five agents on one spot: with this admissible `argpartition` answer agent 3 gets two neighbours for `k = 1` -/
+example : nearestNeighbors (fun _ _ => [0, 1, 2, 3, 4])
+    (erun exE1 0 [.new 1, .set 1 [0], .new 2, .set 2 [0], .new 3, .set 3 [0], .new 4, .set 4 [0], .new 5, .set 5 [0]]) 3 1 =
+    .ok [(1, 0), (2, 0)] := by rfl
 
 end Examples
 
